@@ -89,15 +89,6 @@ Qed.
 Lemma strip_prefix_app p l : strip_prefix p (p ++ l) = Some l.
 Proof. induction p as [|x p IH]; [reflexivity|]. cbn. rewrite N.eqb_refl. exact IH. Qed.
 
-Theorem read_raw_binary payload : payload <> [] ->
-  read_raw (binary_prefix ++ b64_encode payload) = Some payload.
-Proof.
-  intros H. unfold read_raw. rewrite strip_prefix_app.
-  destruct payload as [|a l]; [congruence|].
-  destruct (b64_encode (a :: l)) eqn:E; [exfalso; eapply b64_encode_nonempty; eauto|].
-  rewrite <- E. apply b64_decode_encode.
-Qed.
-
 (* F6: the reader as written loses everything beyond 768 bytes *)
 Example C06_refuted_truncation :
   let payload := repeat (n2b 7) 769 in
